@@ -513,3 +513,88 @@ Proof.
 Qed.
 
 End StatementNodes.
+
+(* ================================================================ the text pipeline (Model/PipelineS.v) *)
+From KV Require Import Model.Pipeline Model.PipelineS.
+
+Section Text.
+Variable fo : fops.
+Variable re : bytes -> bytes -> res bool.
+Variable fmt_v : F fo -> string.
+Variable ag : aggops fo.
+Variable pi pf : bytes -> option Z.
+
+(* the evaluator twins answer (anything but OutOfModel) for the trees of the planned statement:
+   the WHERE filter, the projection, what the AggregatePlan evaluates -- per pair and per chunk *)
+Definition evals_answer (c : cstmt fo) : Prop :=
+  (forall kv, sel_frow fo re (q_where fo c) kv <> OutOfModel) /\
+  (forall ch, filter_batch fo re true (q_where fo c) ch <> OutOfModel) /\
+  (forall kv, c_prow fo re ag (q_fields fo c) kv <> OutOfModel) /\
+  (forall ch, c_pbatch fo re ag (q_fields fo c) ch <> OutOfModel) /\
+  (forall p t kv, c_lobs_row fo re ag (q_group fo c) (q_keys fo c) (q_args fo c) p t kv <> OutOfModel) /\
+  (forall p t ch, c_lobs_batch fo re ag (q_group fo c) (q_keys fo c) (q_args fo c) p t ch <> OutOfModel).
+
+Lemma sp_shape_built pl : built (sp_shape fo pl).
+Proof. unfold sp_shape, stmt_shape. apply build_final_plan_built. Qed.
+
+Theorem drain_planned_fuel_enough_row pl d : evals_answer (sp_q fo pl) ->
+  drain_planned fo re ag pi pf pl d MRow <> OutOfModel.
+Proof.
+  intros (H1 & H2 & H3 & H4 & H5 & H6). apply nf_not_oom with (Q := anyv).
+  unfold drain_planned, run_mode, select_shape_row.
+  apply nf_run_shape_row; try (intros; apply not_oom_nf; auto). apply sp_shape_built.
+Qed.
+
+Theorem drain_planned_fuel_enough_batch_partial pl d B : 1 <= B -> lim_over_order (sp_shape fo pl) = false ->
+  evals_answer (sp_q fo pl) -> drain_planned fo re ag pi pf pl d (MBatch B) <> OutOfModel.
+Proof.
+  intros HB Hl (H1 & H2 & H3 & H4 & H5 & H6). apply nf_not_oom with (Q := anyv).
+  unfold drain_planned, run_mode, select_shape_batch.
+  apply nf_run_shape_batch_partial; try (intros; apply not_oom_nf; auto); [exact HB | apply sp_shape_built | exact Hl].
+Qed.
+
+Definition fuel_mode_ok (pl : splanned fo) (m : tmode) : Prop :=
+  match m with MRow => True | MBatch B => 1 <= B /\ lim_over_order (sp_shape fo pl) = false end.
+
+(* the model boundary of the whole text twin is the front end's / the planner's, or an evaluator's *)
+Theorem select_stmt_text_fuel_enough_partial_lemma q d m :
+  select_stmt_text_st fo re fmt_v ag pi pf q d m = STOom ->
+  plan_stmt_text fo re fmt_v q = STOom \/
+  exists pl, plan_stmt_text fo re fmt_v q = STOk pl /\ (fuel_mode_ok pl m -> ~ evals_answer (sp_q fo pl)).
+Proof.
+  unfold select_stmt_text_st. destruct (plan_stmt_text fo re fmt_v q) as [pl|z|e|e| | | |] eqn:E;
+    cbn [stbind]; try discriminate; [|intros; left; reflexivity].
+  intros H. right. exists pl. split; [reflexivity|]. intros Hm Hev.
+  destruct (drain_planned fo re ag pi pf pl d m) eqn:Ed; cbn [of_drain] in H; try discriminate.
+  revert Ed. destruct m as [|B].
+  - apply drain_planned_fuel_enough_row. exact Hev.
+  - destruct Hm as [HB Hl]. apply drain_planned_fuel_enough_batch_partial; assumption.
+Qed.
+
+End Text.
+
+(* the scan / projection / limit loops over any functions that never answer OutOfModel *)
+Lemma drains_fuel_enough_lemma :
+  forall (P R : Type) (frow : P -> res bool) (fbatch : list P -> res (list bool))
+         (prow : P -> res R) (pbatch : list P -> res (list R)),
+  (forall kv, frow kv <> OutOfModel) -> (forall ch, fbatch ch <> OutOfModel) ->
+  (forall kv, prow kv <> OutOfModel) -> (forall ch, pbatch ch <> OutOfModel) ->
+  forall (B start count : nat) (slots : list (option P)), 1 <= B ->
+  drain_row frow prow slots <> OutOfModel /\
+  drain_batch fbatch pbatch B slots <> OutOfModel /\
+  ldrain_row (proj_next frow prow) start count slots <> OutOfModel /\
+  ldrain_batch_fuel (proj_batch fbatch pbatch B) (limit_fuel P slots) B start count Limit.linit slots <> OutOfModel.
+Proof.
+  intros P R frow fbatch prow pbatch H1 H2 H3 H4 B start count slots HB.
+  assert (G1 : forall kv, nf anyv (frow kv)) by (intros; apply not_oom_nf; auto).
+  assert (G2 : forall ch, nf anyv (fbatch ch)) by (intros; apply not_oom_nf; auto).
+  assert (G3 : forall kv, nf anyv (prow kv)) by (intros; apply not_oom_nf; auto).
+  assert (G4 : forall ch, nf anyv (pbatch ch)) by (intros; apply not_oom_nf; auto).
+  split; [|split; [|split]]; apply nf_not_oom with (Q := anyv).
+  - apply nf_drain_row; assumption.
+  - apply nf_drain_batch; assumption.
+  - apply nf_ldrain_row. intros r. eapply nf_weaken; [|apply nf_proj_next; assumption]. intros; exact I.
+  - apply nf_ldrain_batch_fuel with (mu := @List.length _).
+    + intros r. apply nf_proj_batch; assumption.
+    + unfold limit_fuel, lt. apply le_S, le_n.
+Qed.
